@@ -274,6 +274,14 @@ def request_line(c):
         t = template_sexp(c.template)
     except SyntaxError:
         return None
+    if c.info.get('none'):
+        # a placeholder bound to None is deleted by the real code; the model has no such binding kind
+        import textwrap
+        used = set()
+        for n in ast.walk(ast.parse(textwrap.dedent(c.template))):
+            used.update(str(v) for v in (getattr(n, 'id', None), getattr(n, 'arg', None), getattr(n, 'attr', None), getattr(n, 'name', None)) if v)
+        if used & set(c.info['none']):
+            return None
     btxt = sexp(_strs(c.bindings))
     if 'Unknown:' in btxt:
         return None          # a binding that is already ill-typed (e.g. a statement inside an expression): outside the domain
